@@ -952,3 +952,38 @@ def compile_alt(run, ctx):
     need("let {np} = self.b.pc(); for {j} in {jmps} {self.b.set_jmp_target({j},{np})}; Ok(())", "join", "all jumps are patched to the first instruction after the alternation")
     need("let {last} = MAX;", "last-init", "no Split is patched before the first alternative")
     run.ok(fam, label, w, n, "Split(+1, next alternative) ... Jmp(end) chain in index order")
+
+
+def literal_fast_path(run, ctx):
+    """Which sub-expressions bypass the automata engine as byte-wise literals (C01, C03)."""
+    fam, label = "CTX", "literal-fast-path"
+    n = 0
+    fn = S.get_fn(run, ctx, "analyze::Info::is_literal", fam, label)
+    if fn is not None:
+        c = H.canon(H.peel(fn["body"]))
+        n += 1
+        if not H.pat_match("match self.expr {Expr::Literal{casei:{ci},..} => !{ci}; Expr::Concat(_) => self.children.iter().all(|{c}| {c}.is_literal()); _ => false}", c):
+            run.violation(fam, label, "is_literal", H.where(fn), "Info::is_literal must hold exactly for case-sensitive literals and concatenations of them (a case-insensitive literal compared byte-wise would not fold case), found %s" % c)
+    fn = S.get_fn(run, ctx, "analyze::Info::push_literal", fam, label)
+    if fn is not None:
+        c = H.canon(H.peel(fn["body"]))
+        n += 1
+        if not H.pat_match("match self.expr {Expr::Literal{val:{v},..} => {b}.push_str({v}); Expr::Concat(_) => for {c} in self.children {{c}.push_literal({b})}; _ => {*p}}", c):
+            run.violation(fam, label, "push_literal", H.where(fn), "Info::push_literal must append the literal text of the node and of its children in order, found %s" % c[:160])
+    fn = S.get_fn(run, ctx, "compile::Compiler::compile_delegate", fam, label)
+    if fn is not None:
+        c = H.canon(fn["body"])
+        I = fn["params"][1].get("name")
+        n += 1
+        if not H.pat_match("let {insn} = if %s.is_literal() {let {v} = String::new(); %s.push_literal({v}); Insn::Lit({v})} else {DelegateBuilder::new().push(%s).build(self.options)?}; self.b.add({insn}); Ok(())" % (I, I, I), c):
+            run.violation(fam, label, "compile_delegate", H.where(fn), "compile_delegate must emit Lit(text) exactly for literal sub-expressions and a Delegate built from the user's options otherwise, found %s" % c[:200])
+    fn = S.get_fn(run, ctx, "compile::Compiler::compile_delegates", fam, label)
+    if fn is not None:
+        c = H.canon(fn["body"])
+        I = fn["params"][1].get("name")
+        n += 1
+        want = ("if %s.is_empty() {return Ok(())}; if %s.iter().all(|{e}| {e}.is_literal()) {let {v} = String::new(); for {i} in %s {{i}.push_literal({v})}; self.b.add(Insn::Lit({v})); return Ok(())}; "
+                "let {db} = DelegateBuilder::new(); for {j} in %s {{db}.push({j})}; let {d} = {db}.build(self.options)?; self.b.add({d}); Ok(())") % (I, I, I, I)
+        if not H.pat_match(want, c):
+            run.violation(fam, label, "compile_delegates", H.where(fn), "compile_delegates must merge an all-literal run into one Lit and otherwise push every Info of the run, in order, into one delegate built from the user's options, found %s" % c[:240])
+    run.ok(fam, label, "src/compile.rs", n, "byte-wise Lit only for case-sensitive literals; everything else goes through DelegateBuilder in order")
